@@ -109,35 +109,18 @@ func (s State) String() string {
 	}
 }
 
-func (r *Resolver) AutoTA() {
-	refreshResult := taRefreshValidationError
-	defer func() {
-		refreshResult.Inc()
-	}()
-
+// loadTrustAnchors rebuilds the RFC 5011 view from disk: the anchor
+// state, the tombstones, and the candidate trust set (Valid|Missing
+// anchors with tombstone precedence applied and the admin-configured
+// anchors merged in). Nothing is written and r.rootKeys is not
+// touched. It is the first half of every AutoTA run, and NewResolver
+// uses the same candidate as the start-up trust set so that a revoked
+// key cfg.RootKeys still lists is never live, not even between
+// start-up and the first refresh. A non-nil error means the tombstone
+// store exists but cannot be read: the caller must fail closed.
+func (r *Resolver) loadTrustAnchors() (TrustAnchors, Tombstones, []dns.RR, error) {
 	filename := filepath.Join(r.cfg.Directory, stateFile)
 	tombstonePath := filepath.Join(r.cfg.Directory, tombstoneFile)
-
-	// Snapshot whether the live trust set was non-empty when this
-	// run started. A nil/empty r.rootKeys signals that a prior run
-	// hit a persistence failure and put us in fail-closed mode; we
-	// must not republish from disk in that case because disk could
-	// still carry the un-revoked anchor whose revocation we already
-	// observed in memory. A non-empty value means either the
-	// initial config seed or a previous successful AutoTA — both
-	// are safe upper bounds, so a tombstone-filtered subset of disk
-	// state is at least as restrictive and may safely be published
-	// before the external fetch.
-	priorTrustValid := r.hasTrustAnchors()
-
-	// Track whether this run produced a fresh contraction event —
-	// a brand-new revocation that exists only in memory until the
-	// writes land. Only that case requires fail-closed handling on
-	// dual-write failure; an unrelated refresh that happens to
-	// race a read-only/full disk shouldn't tear down working trust
-	// anchors. Pre-existing StateRevoked entries (legacy migration)
-	// are already durable in the state file, so they don't count.
-	newRevocation := false
 
 	kskCurrent, err := readFromTAFile(filename)
 	if err != nil {
@@ -176,20 +159,16 @@ func (r *Resolver) AutoTA() {
 		// lists, publish it before the fetch, and have the
 		// persistence tail replace the real store with one that no
 		// longer names it. RFC 5011 §2.1 revocation is permanent, so
-		// fail closed instead: clear the live trust set, leave both
-		// files alone and let the next tick (or the operator) retry.
-		// A run that can read the store again republishes from disk
-		// once its writes land.
+		// fail closed instead: the caller clears the live trust
+		// set, both files are left alone and the next tick (or the
+		// operator) retries. A run that can read the store again
+		// republishes from disk once its writes land.
 		if errors.Is(err, errCorruptTombstones) {
-			zlog.Error("Trust anchor tombstones file corrupted — clearing in-memory trust set and aborting refresh", "path", tombstonePath, "error", err.Error())
+			zlog.Error("Trust anchor tombstones file corrupted — failing closed", "path", tombstonePath, "error", err.Error())
 		} else {
-			zlog.Error("Trust anchor tombstones file unreadable — clearing in-memory trust set and aborting refresh", "path", tombstonePath, "error", err.Error())
+			zlog.Error("Trust anchor tombstones file unreadable — failing closed", "path", tombstonePath, "error", err.Error())
 		}
-		r.Lock()
-		r.rootKeys = nil
-		r.Unlock()
-		refreshResult = taRefreshPersistenceError
-		return
+		return nil, nil, nil, err
 	}
 
 	// Copy legacy Revoked/Removed entries into the material-keyed
@@ -277,6 +256,48 @@ func (r *Resolver) AutoTA() {
 		if ta.State == StateValid || ta.State == StateMissing {
 			candidate = append(candidate, ta.DNSKey)
 		}
+	}
+
+	return kskCurrent, tombstones, candidate, nil
+}
+
+func (r *Resolver) AutoTA() {
+	refreshResult := taRefreshValidationError
+	defer func() {
+		refreshResult.Inc()
+	}()
+
+	filename := filepath.Join(r.cfg.Directory, stateFile)
+	tombstonePath := filepath.Join(r.cfg.Directory, tombstoneFile)
+
+	// Snapshot whether the live trust set was non-empty when this
+	// run started. A nil/empty r.rootKeys signals that a prior run
+	// hit a persistence failure and put us in fail-closed mode; we
+	// must not republish from disk in that case because disk could
+	// still carry the un-revoked anchor whose revocation we already
+	// observed in memory. A non-empty value means either the
+	// start-up seed or a previous successful AutoTA — both
+	// are safe upper bounds, so a tombstone-filtered subset of disk
+	// state is at least as restrictive and may safely be published
+	// before the external fetch.
+	priorTrustValid := r.hasTrustAnchors()
+
+	// Track whether this run produced a fresh contraction event —
+	// a brand-new revocation that exists only in memory until the
+	// writes land. Only that case requires fail-closed handling on
+	// dual-write failure; an unrelated refresh that happens to
+	// race a read-only/full disk shouldn't tear down working trust
+	// anchors. Pre-existing StateRevoked entries (legacy migration)
+	// are already durable in the state file, so they don't count.
+	newRevocation := false
+
+	kskCurrent, tombstones, candidate, err := r.loadTrustAnchors()
+	if err != nil {
+		r.Lock()
+		r.rootKeys = nil
+		r.Unlock()
+		refreshResult = taRefreshPersistenceError
+		return
 	}
 
 	for _, k := range candidate {
